@@ -240,12 +240,12 @@ var checks = map[string]Check{
 	},
 	"C05": {
 		Level:       "exploration",
-		Rule:        "bounded-exhaustive enumeration per protocol (raw, json, pb, thrift-binary, websocket json/pb sub-protocols; the HTTP-style protocol and the thrift struct protocol within their narrower documented field sets -- http: CALL/REPLY, URL-path methods, mapped content types, gzip only, header-shaped metadata compared as a sorted set; thrift-struct: thrift struct bodies, no codec choice, no filters): every value of each field alphabet against a base message (7 seqs, 3 types, 8 methods, 6 statuses, all metadata sequences of <=2 pairs over 10 atoms (quick: 1 pair + reduced 2-pair set), every registered codec id, all 256 single-byte bodies + escape mixes + 64 KiB, 5 pipes, boundary lengths) plus the full product of reduced alphabets; streams: every sequence of <=2 (quick) / 3 frames of a 6-frame alphabet through every uniform chunk size and every single split point, with per-frame size stability; a case is one message or one (sequence, chunking); classes = protocol x field class",
+		Rule:        "bounded-exhaustive enumeration per protocol (raw, json, pb, thrift-binary, websocket json/pb sub-protocols; the HTTP-style protocol and the thrift struct protocol within their narrower documented field sets -- http: CALL/REPLY, URL-path methods, mapped content types, gzip only, header-shaped metadata compared as a sorted set; thrift-struct: thrift struct bodies, no codec choice, no filters): every value of each field alphabet against a base message (7 seqs, 3 types, 8 methods, 6 statuses, all metadata sequences of <=2 pairs over 10 atoms (quick: 1 pair + reduced 2-pair set), every registered codec id, all 256 single-byte bodies + escape mixes + 64 KiB, 5 pipes, boundary lengths) plus the full product of reduced alphabets; streams: every sequence of <=2 (quick) / 4 frames of a 7-frame alphabet through every uniform chunk size and every single split point, with per-frame size stability; a case is one message or one (sequence, chunking); classes = protocol x field class",
 		Assumptions: []string{"field-by-field reference model written from the documented frame formats; domain limits are data in scen/c05.go (raw: 255/65535 byte limits; pb: service method must be valid UTF-8; ws sub-protocols are message-framed by the websocket layer)", "protocol instances are driven directly through Proto.Pack/Unpack over an in-memory reader"},
 		Jobs: func(tier string) []Job {
 			a, fr := "quick", "2"
 			if tier == "thorough" {
-				a, fr = "full", "3"
+				a, fr = "full", "4"
 			}
 			return []Job{
 				{Mode: "enum", Name: "c05_roundtrip", Params: "alphabet=" + a, Shards: 16},
@@ -255,12 +255,12 @@ var checks = map[string]Check{
 	},
 	"C11": {
 		Level:       "exploration",
-		Rule:        "bounded-exhaustive enumeration per codec (json, xml, form, plain, protobuf, thrift): round trip of a compiled zoo of destination types over boundary values (integer/float extremes, all 256 single-byte strings (valid UTF-8 only where the codec's domain requires), multi-byte runes, lengths 0..17, slices/arrays of 0..3 elements, nested structs) compared with reflect.DeepEqual (nil == empty slice); decoder totality: every string of length <=N over a 10-13 symbol per-codec alphabet, every prefix and 7 single-byte mutations at every offset of valid encodings, into every destination type, with guard bytes around the destination; a case = (codec, type class, value) or (codec, input bytes, destination)",
+		Rule:        "bounded-exhaustive enumeration per codec (json, xml, form, plain, protobuf, thrift): round trip of a compiled zoo of destination types over boundary values (integer/float extremes, all 256 single-byte strings (valid UTF-8 only where the codec's domain requires), multi-byte runes, lengths 0..17, slices/arrays of 0..3 elements, nested structs) compared with reflect.DeepEqual (nil == empty slice); decoder totality: every string of length <=3 (quick) / 6 over a 10-13 symbol per-codec alphabet, every prefix and 7 single-byte mutations at every offset of valid encodings, into every destination type, with guard bytes around the destination; a case = (codec, type class, value) or (codec, input bytes, destination)",
 		Assumptions: []string{"domain limits are data in scen/c11.go: JSON/XML/protobuf strings must be valid UTF-8, XML strings exclude control characters and fixed arrays, NaN excluded"},
 		Jobs: func(tier string) []Job {
 			n := "3"
 			if tier == "thorough" {
-				n = "5"
+				n = "6"
 			}
 			return []Job{
 				{Mode: "enum", Name: "c11_roundtrip", Shards: 4},
@@ -270,12 +270,12 @@ var checks = map[string]Check{
 	},
 	"C12": {
 		Level:       "exploration",
-		Rule:        "bounded-exhaustive enumeration: every pipe over the registered filter ids up to length 3 (quick) / 5 (thorough, with a 1 MiB payload) plus md5 pipes of length 254, 255 and 256, crossed with payloads {empty, all 256 single bytes, 1 KiB compressible, 1 KiB incompressible}; every single-byte corruption (every offset x 255 values), truncation and extension of md5-packed payloads of length 0..16 (quick) / 48; unregistered ids at every position refused by Append and by Unpack of raw/json/pb frames; live sessions: a call sent through each of 6 pipes over 4 protocols, handler succeeding or failing, reply pipe read from the reply frame (all non-preemptive schedules)",
+		Rule:        "bounded-exhaustive enumeration: every pipe over the registered filter ids up to length 3 (quick) / 8 (thorough, with a 1 MiB payload) plus md5 pipes of length 254, 255 and 256, crossed with payloads {empty, all 256 single bytes, 1 KiB compressible, 1 KiB incompressible}; every single-byte corruption (every offset x 255 values), truncation and extension of md5-packed payloads of length 0..16 (quick) / 96; unregistered ids at every position refused by Append and by Unpack of raw/json/pb frames; live sessions: a call sent through each of 6 pipes over 4 protocols, handler succeeding or failing, reply pipe read from the reply frame (all non-preemptive schedules)",
 		Assumptions: []string{"registered filters in the harness process: gzip ('g', level 5) and md5 ('m')"},
 		Jobs: func(tier string) []Job {
 			l, c, big := "3", "16", "0"
 			if tier == "thorough" {
-				l, c, big = "5", "48", "1"
+				l, c, big = "8", "96", "1"
 			}
 			return []Job{
 				{Mode: "enum", Name: "c12_pipes", Params: "len=" + l + ",big=" + big, Shards: 8},
@@ -286,12 +286,12 @@ var checks = map[string]Check{
 	},
 	"C10": {
 		Level:       "exploration",
-		Rule:        "(i) both exported mappers on every identifier of length <=5 (quick) / 7 over {A,B,a,b,_,1} x 5 prefixes: total, deterministic, equal to a reference implementation on the sub-language the documentation defines (letter words joined by _ or __), README rows verbatim; (ii) live dispatch: every ordered pair of 10 compiled controller/function registrations (chosen to cover every mapping rule and name-collision class) x 3x3 group nestings x both mappers x unknown-handlers set/unset; after registration every returned name and 10+ near-misses per name are requested as CALL and as PUSH; a case = one (identifier, prefix) or one registration program",
+		Rule:        "(i) both exported mappers on every identifier of length <=5 (quick) / 8 over {A,B,a,b,_,1} x 5 prefixes: total, deterministic, equal to a reference implementation on the sub-language the documentation defines (letter words joined by _ or __), README rows verbatim; (ii) live dispatch: every ordered pair of 10 compiled controller/function registrations (chosen to cover every mapping rule and name-collision class) x 3x3 group nestings x both mappers x unknown-handlers set/unset; after registration every returned name and 10+ near-misses per name are requested as CALL and as PUSH; a case = one (identifier, prefix) or one registration program",
 		Assumptions: []string{"the framework's Fatalf is intercepted by a logger outputter that panics on CRITICAL, so a registration conflict is observable without exiting", "identifier classes with leading/trailing/3+ underscores or digits are checked for totality and determinism only (the documentation does not define their mapping)"},
 		Jobs: func(tier string) []Job {
 			l := "5"
 			if tier == "thorough" {
-				l = "7"
+				l = "8"
 			}
 			return []Job{
 				{Mode: "enum", Name: "c10_mapper", Params: "len=" + l, Shards: 8},
